@@ -25,7 +25,7 @@ THEOREMS = ['Props.C19.' + t for t in [
     'block_mapping_identity',
     'block_mapping_keyerror_src1_tgt0', 'block_mapping_keyerror_src2_tgt0', 'block_mapping_keyerror_general',
     'incon_transfer_underground', 'incon_transfer_atmosphere_single', 'incon_average_value',
-    'incon_transfer_atmosphere_percolumn', 'incon_transfer_total_partial',
+    'incon_transfer_atmosphere_percolumn', 'incon_transfer_total_partial', 'incon_transfer_source_unaltered',
     'rocktype_transfer_spec', 'rocktype_transfer_identity',
     'generator_transfer_identity', 'generator_totals_identity']]
 LEVEL_TEXT = ('Proof: Lean theorems about an executable model of block_mapping/column_mapping/layer_mapping, '
@@ -1239,6 +1239,28 @@ def run_inner(ctx, scale=1.0, only_oracle=False):
                 if not same:
                     disagree('incon_transfer', f_inc, case_of(kind, s, t, {'explicit': explicit}), mo[0] if mo[0] == 'ok' else mo, r[0] if r[0] == 'ok' else r)
             ask(['inc'] + qt + gs + gt + incon_tokens(sinc) + dict_tokens(mp) + dict_tokens(cmp_), c_inc)
+
+            def c_inch(line, kind=kind, s=s, t=t, sinc=sinc, r=r, explicit=explicit):
+                # the heap model of the same call: same result, source objects untouched, only new objects, block attribute = key
+                f_inc['cases'] += 1
+                w = line.split()
+                if w[0] == 'ok':
+                    flags, rest = w[1:4], 'ok ' + ' '.join(w[4:])
+                else:
+                    flags, rest = ['1', '1', '1'], line
+                if r[0] == 'ok':
+                    real_c, srcstate = canon_incon_real(r[1], sinc)
+                    real_flags = ['1', '1' if all(b.block == k for k, b in r[1]._block.items()) else '0',
+                                  '1' if not (set(map(id, r[1]._blocklist)) & set(map(id, sinc._blocklist))) else '0']
+                else:
+                    real_c, srcstate = None, canon_incon_real(t2incons.t2incon(), sinc)[1]
+                    real_flags = ['1', '1', '1']
+                mo = parse_incon_model(rest, srcstate)
+                same = (mo[0] == r[0]) and (mo[1] == r[1] if r[0] == 'exc' else incon_equal(mo[1], real_c)) and flags == real_flags
+                if not same:
+                    disagree('incon_transfer', f_inc, case_of(kind, s, t, {'explicit': explicit, 'model': 'heap'}),
+                             (mo[0], flags) if mo[0] == 'ok' else mo, (r[0], real_flags) if r[0] == 'ok' else r)
+            ask(['inch'] + qt + gs + gt + incon_tokens(sinc) + dict_tokens(mp) + dict_tokens(cmp_), c_inch)
         # --- model: hypotheses of generator_transfer_identity on the identical-geometry transfers
         for dat, top, bot in ident_jobs:
             try:
